@@ -157,6 +157,7 @@ func main() {
 		out["accesses"] = acc
 		out["readCmd"] = cmdSwitches(drv)
 		out["keepAlive"] = keepAliveFacts(drv)
+		out["supervisor"] = supervisorFacts(drv)
 		enc := json.NewEncoder(os.Stdout)
 		enc.SetIndent("", " ")
 		if err := enc.Encode(out); err != nil {
